@@ -61,6 +61,11 @@ def inventory_labels(b, api) -> list[str]:
                 labels.append(f"c12:method-flags-differ:{tag}")
         if e["kind"] == "attribute" and entry["is_static"] != e["static"]:
             labels.append("c12:attribute-static-flag-differs")
+        if e["kind"] == "class" and "superclasses" in e:
+            if entry["superclasses"] != e["superclasses"]:
+                labels.append("c12:superclass-list-differs")
+            if entry["inherits_from_exception"] != e["exception"]:
+                labels.append("c12:exception-flag-differs")
     # referential integrity: every referenced id resolves; every non-module entry has exactly one owner reference
     refs: dict[str, int] = {}
 
